@@ -5,7 +5,8 @@
    machine-checked so far. *)
 From Coq Require Import ZArith List Permutation.
 From Verif.Model Require Import Munkres.
-From Verif.Proofs Require Import MunkresDuality MunkresSpec.
+From Verif.Model Require Import MunkresReuse.
+From Verif.Proofs Require Import MunkresDuality MunkresSpec MunkresReuse.
 Import ListNotations.
 
 (* optimality certificate: potentials + a perfect matching on zeros of the reduced matrix *)
@@ -16,6 +17,15 @@ Theorem C06_weak_duality : forall (n : nat) (M C : nat -> nat -> Z) (u v : nat -
   (forall i, (i < n)%nat -> C i (nth i star 0%nat) = 0%Z) ->
   (asg_sum M star <= asg_sum M tau)%Z.
 Proof. exact weak_duality. Qed.
+
+(* histories: compute re-initialises every working field, so on ANY sequence of solves (any shapes, any
+   incoming instance state) each solve returns what a fresh solver returns *)
+Theorem C06_reuse_independent : forall (old : inst) (m : matrix Z),
+  snd (compute_on old m) = snd (compute_on fresh_inst m).
+Proof. exact reuse_independent. Qed.
+
+Theorem C06_history_independent : forall (ms : list (matrix Z)) (i : inst), solve_all i ms = map computeZ ms.
+Proof. exact solve_all_fresh. Qed.
 
 Example C06_ex_3x3 : computeZ [[4;1;3];[2;0;5];[3;2;2]]%Z = Some [(0,1);(1,0);(2,2)]%nat.
 Proof. vm_compute. reflexivity. Qed.
